@@ -5,12 +5,13 @@ effect-free (R3); cache replace-on-put / write-through (R4); path-scheme writer/
 agreement (R5).  Does not decide: equivalence with a model dictionary over histories.
 """
 import ast
+import re
 
 from .. import astutil as A
 from ..fa import FA
 from ..loader import AnalysisError
 from .cache_model import CacheModel, self_attr, branch_filter, both, safe_expand, value_sources, every_path_through
-from .effects import reach_effects, storage_backend_classes, QUERY_METHODS
+from .effects import reach_effects, storage_backend_classes, QUERY_METHODS, effective_function
 from .keys import check_keying
 from . import c06
 
@@ -105,6 +106,24 @@ def _prefix_tests(fa: FA, ck=None):
                             and isinstance(b, ast.Constant) and b.value == 0 and type(b.value) is int:
                         hit = (a.func.value, a.args[0])
                         break
+            if hit is None and isinstance(n, ast.Call):
+                # the same test as a callable object: operator.methodcaller('startswith', P) applied to S, or handed to
+                # filter(pred, keys) (then every element of `keys` is the subject)
+                mc = _startswith_caller(fa, n.func, at if at is not None else n)
+                if mc is not None and len(n.args) == 1 and not n.keywords:
+                    hit = (n.args[0], mc)
+                elif isinstance(n.func, ast.Name) and n.func.id == "filter" and len(n.args) == 2 and not n.keywords:
+                    mc = _startswith_caller(fa, n.args[0], at if at is not None else n)
+                    if mc is not None:
+                        out.append((n, None, mc, at if at is not None else n, n.args[1]))
+                        continue
+                    # filter(pred, keys) with pred a lambda held in a local: the test in its body, on each element of `keys`
+                    lam = safe_expand(fa, n.args[0], at if at is not None else n) if isinstance(n.args[0], ast.Name) else None
+                    if isinstance(lam, ast.Lambda) and len(lam.args.args) == 1:
+                        for (t_, s_, p_, _a, _i) in scan(list(ast.walk(lam.body)), at if at is not None else n, A.parent_map(lam)):
+                            if isinstance(s_, ast.Name) and s_.id == lam.args.args[0].arg:
+                                out.append((t_, s_, p_, at if at is not None else n, n.args[1]))
+                        continue
             if hit is not None:
                 out.append((n, hit[0], hit[1], at if at is not None else n, _binder_iter(fa, hit[0], pm)))
         return out
@@ -113,6 +132,11 @@ def _prefix_tests(fa: FA, ck=None):
     nodes += [x for lam in list(nodes) if isinstance(lam, ast.Lambda) for x in ast.walk(lam.body)]
     out = scan(nodes, None, None)
     cls = fa.fi.cls
+    # ... and in what a single-return function nested in this one returns for the arguments it is called with here
+    for c in [n for n in nodes if isinstance(n, ast.Call) and isinstance(n.func, ast.Name) and n.func.id in fa.fi.nested]:
+        body = _inline_nested(fa, c)
+        if body is not None:
+            out += scan(list(ast.walk(body)), c, A.parent_map(body))
     if ck is not None and cls is not None:
         for c in [n for n in nodes if isinstance(n, ast.Call)]:
             f = c.func
@@ -123,6 +147,254 @@ def _prefix_tests(fa: FA, ck=None):
                     sub = list(ast.walk(body))
                     out += scan(sub, c, A.parent_map(body))
     return out
+
+
+def _startswith_caller(fa: FA, f, at):
+    """`f` (through temporaries) is operator.methodcaller('startswith', P) -> P"""
+    e = safe_expand(fa, f, at) if isinstance(f, ast.Name) else f
+    if isinstance(e, ast.Call) and A.call_attr(e) == "methodcaller" and len(e.args) == 2 and not e.keywords and A.const_str(e.args[0]) == "startswith":
+        return e.args[1]
+    return None
+
+
+def _inline_nested(fa: FA, call):
+    """what a function nested in `fa` returns for the arguments of `call` (single return, no other statement with an effect:
+    its body is assignments and the return), its own temporaries expanded; None when it is not of that shape"""
+    import copy
+    sub = fa.fi.nested.get(call.func.id)
+    if sub is None or sub.node is None:
+        return None
+    body = [st for st in sub.node.body if not (isinstance(st, ast.Expr) and isinstance(st.value, ast.Constant))]
+    rets = [st for st in A.all_stmts(sub.node) if isinstance(st, ast.Return) and st.value is not None]
+    if len(rets) != 1 or not body or body[-1] is not rets[0] or any(not isinstance(st, (ast.Assign, ast.AnnAssign)) for st in body[:-1]):
+        return None
+    try:
+        e = FA(fa.ck, sub).expand(rets[0].value)
+    except AnalysisError:
+        return None
+    bound = _bind(call, sub.params)
+    if set(sub.params) - set(bound):
+        return None
+
+    class S(ast.NodeTransformer):
+        def visit_Name(self, x_):
+            return copy.deepcopy(bound[x_.id]) if x_.id in bound and isinstance(x_.ctx, ast.Load) else x_
+
+    return S().visit(copy.deepcopy(e))
+
+
+# ---- "operation X is applied to layer F": whatever does the dispatching ------------------------------------------------
+def _splice(fa: FA, args, at):
+    """positional arguments with `*<tuple>` spread out (the tuple through temporaries)"""
+    out = []
+    for a in args:
+        if isinstance(a, ast.Starred):
+            v = safe_expand(fa, a.value, at)
+            if isinstance(v, (ast.Tuple, ast.List)) and not any(isinstance(x, ast.Starred) for x in v.elts):
+                out += list(v.elts)
+                continue
+        out.append(a)
+    return out
+
+
+def _operation_sites(fa: FA, name):
+    """Where the method `name` is applied to some receiver, by what is computed: `R.name(args)`; a bound method taken first
+    (`f = R.name ... f(args)`); `getattr(R, 'name')(args)` with the name through temporaries; `operator.methodcaller('name',
+    args)(R)`.  -> [(call node, receiver expression, positional arguments, keyword arguments)]"""
+    out = []
+    for c in fa.calls():
+        if not fa.nodes(c):
+            continue
+        f = c.func
+        if isinstance(f, ast.Attribute) and f.attr == name:
+            out.append((c, f.value, _splice(fa, c.args, c), list(c.keywords)))
+            continue
+        fx = safe_expand(fa, f, c) if isinstance(f, ast.Name) else f
+        if isinstance(fx, ast.Attribute) and fx.attr == name:
+            out.append((c, fx.value, _splice(fa, c.args, c), list(c.keywords)))
+        elif isinstance(fx, ast.Call) and isinstance(fx.func, ast.Name) and fx.func.id == "getattr" and len(fx.args) == 2 and not fx.keywords \
+                and A.const_str(safe_expand(fa, fx.args[1], c)) == name:
+            out.append((c, fx.args[0], _splice(fa, c.args, c), list(c.keywords)))
+        elif isinstance(fx, ast.Call) and A.call_attr(fx) == "methodcaller" and fx.args and A.const_str(safe_expand(fa, fx.args[0], c)) == name \
+                and len(c.args) == 1 and not c.keywords and not isinstance(c.args[0], ast.Starred):
+            out.append((c, c.args[0], _splice(fa, fx.args[1:], c), list(fx.keywords)))
+    return out
+
+
+def _implied(fa: FA, t, n, positive, excuse) -> bool:
+    """does `t` evaluating to `positive` imply a literal accepted by `excuse`? (as cache_model.branch_filter decides it)"""
+    if isinstance(t, ast.UnaryOp) and isinstance(t.op, ast.Not):
+        return _implied(fa, t.operand, n, not positive, excuse)
+    if isinstance(t, ast.BoolOp):
+        conj = (isinstance(t.op, ast.And) and positive) or (isinstance(t.op, ast.Or) and not positive)
+        parts = [_implied(fa, v, n, positive, excuse) for v in t.values]
+        return any(parts) if conj else all(parts)
+    try:
+        (txt, pol) = fa._literal(t, n, positive)
+    except AnalysisError:
+        return False
+    return bool(excuse(txt, pol))
+
+
+def _inline_properties(ck, cls, e, depth=0):
+    """`self.<p>` with p a single-return property of the class (or a base) replaced by what the property returns"""
+    import copy
+    if cls is None:
+        return e
+
+    class T(ast.NodeTransformer):
+        def visit_Attribute(self, n_):
+            self.generic_visit(n_)
+            if depth < 3 and isinstance(n_.value, ast.Name) and n_.value.id == "self" and isinstance(n_.ctx, ast.Load):
+                m = ck.repo.find_method(cls, n_.attr)
+                if m is not None and m.node is not None and "property" in m.decorators and len(m.params) == 1:
+                    rets = [s_ for s_ in A.all_stmts(m.node) if isinstance(s_, ast.Return) and s_.value is not None]
+                    if len(rets) == 1:
+                        try:
+                            body = FA(ck, m).expand(rets[0].value)
+                        except AnalysisError:
+                            return n_
+                        body = copy.deepcopy(body)
+                        if m.params[0] != "self":
+                            for x_ in ast.walk(body):
+                                if isinstance(x_, ast.Name) and x_.id == m.params[0]:
+                                    x_.id = "self"
+                        return _inline_properties(ck, cls, body, depth + 1)
+            return n_
+
+    return T().visit(copy.deepcopy(e))
+
+
+def _layer_value(ck, fa: FA, e, at, field, excuse) -> bool:
+    """Is the value of `e` the layer `self.<field>` -- in every case, or (given `excuse`, the literals that say the layer does
+    not exist) in every case in which the layer exists?  Decided through temporaries, properties of the class, conditional
+    expressions (`cache if cache else STAND_IN`) and `cache or STAND_IN`."""
+    want = "self." + field
+    x = _inline_properties(ck, fa.fi.cls, safe_expand(fa, e, at))
+    ids = fa.nodes(at)
+
+    def val(v):
+        if A.norm(v) == want:
+            return True
+        if isinstance(v, ast.IfExp) and ids:
+            return all(val(arm) or (excuse is not None and _implied(fa, v.test, ids[0], pol, excuse)) for (arm, pol) in ((v.body, True), (v.orelse, False)))
+        if isinstance(v, ast.BoolOp) and isinstance(v.op, ast.Or) and excuse is not None and ids and val(v.values[0]):
+            # `L or other`: L whenever L is truthy
+            return _implied(fa, v.values[0], ids[0], False, excuse)
+        return False
+    return val(x)
+
+
+def _every_iteration(fa: FA, lp, ids) -> bool:
+    """every iteration of the loop `lp` passes one of the CFG nodes `ids`, and the loop visits every element (no break / return)"""
+    if not ids or any(isinstance(n, (ast.Break, ast.Return)) for st in lp.body for n in ast.walk(st)):
+        return False
+    for h in fa.nodes(lp):
+        r = fa.cfg.reach([h], removed=ids, edge_ok=lambda s_, d_, l_, h=h: not (s_ == h and l_ == "F"), include_start=False)
+        for i in r:
+            nd = fa.cfg.node(i)
+            if i == h or i == fa.cfg.exit or (nd.ast is not None and not fa.inside(nd.ast, lp)):
+                return False
+    return True
+
+
+def _iterates_layer(ck, fa: FA, lp, field, excuse) -> bool:
+    """Is `self.<field>` among what the loop `lp` runs over (whenever the layer exists)?  The iterable is a tuple / list
+    written out, a local list (its initial value, per arm of a conditional expression, plus what is appended on every way to
+    the loop; nothing removed), or what a generator / list-returning method of the class hands out: for a generator, every
+    way through it yields the layer, except on branch edges that say the layer does not exist."""
+    it = lp.iter
+    while isinstance(it, ast.Call) and isinstance(it.func, ast.Name) and it.func.id in _SEQ_WRAPPERS and len(it.args) == 1 and it.func.id not in ("set", "reversed", "sorted"):
+        it = it.args[0]
+    heads = fa.nodes(lp)
+    if not heads:
+        return False
+    appended = []
+    if isinstance(it, ast.Name):
+        nm = it.id
+        for c in fa.calls():
+            r_ = A.call_recv(c)
+            if isinstance(r_, ast.Name) and r_.id == nm:
+                if A.call_attr(c) in ("remove", "pop", "clear", "reverse", "sort", "__delitem__"):
+                    return False
+                if A.call_attr(c) in ("append",) and len(c.args) == 1 and fa.nodes(c) and all(fa.cfg.must_pass(fa.nodes(c), h) for h in heads):
+                    appended.append((c.args[0], c))
+        if any(isinstance(t, ast.Subscript) and isinstance(t.value, ast.Name) and t.value.id == nm for st in fa.stmts(ast.Delete) for t in st.targets):
+            return False
+    if any(_layer_value(ck, fa, e, c, field, excuse) for (e, c) in appended):
+        return True
+    x = safe_expand(fa, it, lp)
+    if fa.fi.cls is not None:
+        # a generator of the class: every way through it yields the layer
+        if isinstance(x, ast.Call) and isinstance(x.func, ast.Attribute) and isinstance(x.func.value, ast.Name) and x.func.value.id == "self" \
+                and not x.args and not x.keywords:
+            m = ck.repo.find_method(fa.fi.cls, x.func.attr)
+            if m is not None and m.node is not None and any(isinstance(n, (ast.Yield, ast.YieldFrom)) for n in A.walk_body(m.node)):
+                g = FA(ck, m)
+                ys = [st for st in g.stmts(ast.Expr) if isinstance(st.value, ast.Yield) and st.value.value is not None
+                      and _layer_value(ck, g, st.value.value, st, field, excuse)]
+                nodes = g.nodes_all(ys)
+                return bool(nodes) and g.cfg.exit not in g.cfg.reach([g.cfg.entry], removed=nodes, edge_ok=branch_filter(g, excuse) if excuse is not None else None)
+        x = _inline_own_builders(ck, fa.fi.cls, x)
+
+    def seq(v):
+        if isinstance(v, (ast.Tuple, ast.List)):
+            return any(not isinstance(el, ast.Starred) and _layer_value(ck, fa, el, lp, field, excuse) for el in v.elts)
+        if isinstance(v, ast.IfExp):
+            return all(seq(arm) or (excuse is not None and _implied(fa, v.test, heads[0], pol, excuse)) for (arm, pol) in ((v.body, True), (v.orelse, False)))
+        if isinstance(v, ast.BinOp) and isinstance(v.op, ast.Add):
+            return seq(v.left) or seq(v.right)
+        return False
+    return seq(x)
+
+
+def _runs_with_statement(fa: FA, node, excuse) -> bool:
+    """Is `node` evaluated whenever its statement runs -- or skipped only where `excuse` holds?  An operand behind `and` /
+    `or` or an arm of a conditional expression is skipped when the operands before it / the test decide so: each such
+    decision must imply a literal accepted by `excuse`."""
+    if fa.unconditional(node):
+        return True
+    if excuse is None:
+        return False
+    ids = fa.nodes(node)
+    if not ids:
+        return False
+    n = node
+    while n is not None and not isinstance(n, ast.stmt):
+        p_ = fa.pm.get(n)
+        if isinstance(p_, ast.IfExp) and n is not p_.test:
+            if not _implied(fa, p_.test, ids[0], n is not p_.body, excuse):
+                return False
+        elif isinstance(p_, ast.BoolOp) and n in p_.values and n is not p_.values[0]:
+            # skipped when an earlier operand of `and` is false / of `or` is true
+            skip_pol = not isinstance(p_.op, ast.And)
+            if not all(_implied(fa, v, ids[0], skip_pol, excuse) for v in p_.values[:p_.values.index(n)]):
+                return False
+        elif isinstance(p_, (ast.ListComp, ast.SetComp, ast.GeneratorExp, ast.DictComp, ast.Lambda)):
+            return False
+        n = p_
+    return True
+
+
+def _layer_application_nodes(ck, fa: FA, name, field, excuse):
+    """CFG nodes that stand for "operation `name` is applied to the layer self.<field>" (when it exists), with the sites
+    -> (node ids, [(call, args, keywords)])"""
+    nodes, sites = [], []
+    for (c, recv, args, kws) in _operation_sites(fa, name):
+        if not _runs_with_statement(fa, c, excuse):
+            continue
+        if _layer_value(ck, fa, recv, c, field, excuse):
+            nodes += fa.nodes(c)
+            sites.append((c, args, kws))
+            continue
+        if isinstance(recv, ast.Name):
+            lp = fa.enclosing(c, ast.For)
+            while lp is not None and not (isinstance(lp.target, ast.Name) and lp.target.id == recv.id):
+                lp = fa.enclosing(lp, ast.For)
+            if lp is not None and _every_iteration(fa, lp, fa.nodes(c)) and _iterates_layer(ck, fa, lp, field, excuse):
+                nodes += fa.nodes(lp)
+                sites.append((c, args, kws))
+    return nodes, sites
 
 
 def _forget_by_scan(ck, R, cm, ff, sw, sep):
@@ -140,7 +412,7 @@ def _forget_by_scan(ck, R, cm, ff, sw, sep):
               ff.where(at))
         # which table do the tested keys come from: the iterable that binds the tested variable (comprehension or loop)
         if it is not None:
-            for a in A.attrs_in(it):
+            for a in A.attrs_in(safe_expand(ff, it, at)):
                 slots.add(a)
     # both refs and cache are filtered
     need = {cm.map} | ({cm.refs} if cm.refs else set())
@@ -157,7 +429,7 @@ def _forget_by_index(ck, R, cm, ff):
     for loop in ff.stmts(ast.For):
         for x in ast.walk(loop.iter):
             f = self_attr(x)
-            if f and f not in (cm.map, cm.refs, cm.queue, cm.counter, cm.budget):
+            if f and f not in (cm.map, cm.refs, cm.queue, cm.counter, cm.budget) and f not in cm.cls.methods:
                 idx = f
     if idx is None:
         raise AnalysisError("MemoryCache.forget_function selects its keys neither by a startswith() scan nor from an index slot (unsupported idiom)")
@@ -842,20 +1114,27 @@ def check_forget_scope(ck, cm: CacheModel):
           "forget_everything does not delete the whole metadata root", f3.where())
     # (c) backend base mirrors into cache and metadata source
     for name in ("forget_call", "forget_function", "forget_everything"):
-        fa = FA(ck, BACKEND_BASE + "." + name)
-        md = _field_calls(fa, "_metadata_source", name)
-        okm = bool(md) and fa.cfg.must_pass(fa.nodes_all(md), fa.cfg.exit)
+        # the statements that run when the method is called (a new decorator's wrapper applied, a body that only delegates
+        # to a new helper replaced by the helper's); the operation is applied to a layer by whatever dispatches it: a plain
+        # call, a bound method, getattr(layer, name), operator.methodcaller(name, ..), a loop over the layers
+        fa = FA(ck, effective_function(ck, ck.fn(BACKEND_BASE + "." + name)))
+        mdn, md = _layer_application_nodes(ck, fa, name, "_metadata_source", None)
+        okm = bool(mdn) and fa.cfg.must_pass(mdn, fa.cfg.exit)
         ck.ob(R, fa.key(None, "metadata-source"), okm, "metadata source %s on every path" % name if okm else
               "%s does not reach self._metadata_source.%s on every normal path" % (name, name), fa.where())
-        cc = _field_calls(fa, "_memory_cache", name)
+        ccn, cc = _layer_application_nodes(ck, fa, name, "_memory_cache", _no_cache)
         # a path may skip the cache only on a branch edge that says there is no cache
-        okc = bool(cc) and fa.cfg.exit not in fa.cfg.reach([fa.cfg.entry], removed=fa.nodes_all(cc), edge_ok=branch_filter(fa, _no_cache))
+        okc = bool(ccn) and fa.cfg.exit not in fa.cfg.reach([fa.cfg.entry], removed=ccn, edge_ok=branch_filter(fa, _no_cache))
         ck.ob(R, fa.key(None, "cache"), okc, "cache %s whenever a cache exists" % name if okc else
               "%s can finish without self._memory_cache.%s although a cache exists: forgotten entries stay served from memory" % (name, name), fa.where())
         # arguments forwarded unchanged
-        for c in md + cc:
+        seen_sites = set()
+        for (c, args_, kws_) in md + cc:
+            if id(c) in seen_sites:
+                continue
+            seen_sites.add(id(c))
             params = [p for p in fa.fi.params if p != "self"]
-            okA = [_xt(fa, a, c) for a in c.args] + [_xt(fa, k.value, c) for k in c.keywords] == params
+            okA = [_xt(fa, a, c) for a in args_] + [_xt(fa, k.value, c) for k in kws_] == params
             ck.ob(R, fa.key(c, "args"), okA, "scope argument forwarded unchanged" if okA else
                   "the scope argument is not forwarded unchanged", fa.where(c))
     # (d) memory backend tables
@@ -1110,16 +1389,19 @@ def check_cache_coherence(ck, cm):
     c06.check_replace_on_put(ck, cm, R)
     ck.expected[R] = 3
     # memoize writes through on every non-read-only path, before the store can fail half-way
-    fa = FA(ck, BACKEND_BASE + ".memoize")
-    puts = _field_calls(fa, "_memory_cache", "put")
-    # a path may finish without the put only on a branch edge that says "no cache" or "read-only" (whatever the
-    # nesting, the polarity of the test or a temporary holding the flag)
-    edge_ok = branch_filter(fa, lambda t, p: _no_cache(t, p) or (p and t == "self.read_only"))
-    ok = bool(puts) and fa.cfg.exit not in fa.cfg.reach([fa.cfg.entry], removed=fa.nodes_all(puts), edge_ok=edge_ok)
+    fa = FA(ck, effective_function(ck, ck.fn(BACKEND_BASE + ".memoize")))
+    # the put is applied to the cache by whatever dispatches it (plain call, bound method, methodcaller, a null-object
+    # property, a loop over the layers): a path may finish without it only on a branch edge that says "no cache" or
+    # "read-only" (whatever the nesting, the polarity of the test or a temporary holding the flag)
+    def excuse(t, p):
+        return _no_cache(t, p) or (p and t == "self.read_only")
+    pn, psites = _layer_application_nodes(ck, fa, "put", "_memory_cache", excuse)
+    edge_ok = branch_filter(fa, excuse)
+    ok = bool(pn) and fa.cfg.exit not in fa.cfg.reach([fa.cfg.entry], removed=pn, edge_ok=edge_ok)
     ck.ob(R, fa.key(None, "write-through"), ok, "memoize writes through to the cache on every writable path" if ok else
           "memoize can store without updating the memory cache: a stale cached value outlives the new one", fa.where())
-    for c in puts:
-        b_ = _bind(c, cm.insert.params)
+    for (c, args_, kws_) in psites:
+        b_ = _bind(ast.Call(func=c.func, args=list(args_), keywords=list(kws_)), cm.insert.params)
         hv = b_.get("has_result")
         okv = [_xt(fa, b_.get(x), c) for x in ("memento", "result")] == ["memento", "result"] and hv is not None and _xt(fa, hv, c) == "True"
         ck.ob(R, fa.key(c, "args"), okv, "cache receives (memento, result, has_result=True)" if okv else
@@ -2304,6 +2586,263 @@ def check_listing_limit(ck, R):
           "listed, while the memory backend returns nothing for the same request", fa.where())
 
 
+# ---- side tables of the write-through cache follow the store ---------------------------------------------------------
+_SIDE_MODULES = ("storage_base", "storage_filesystem", "storage_memory", "storage")
+
+
+class _SideTable:
+    """A keyed table besides the modelled slots of the memory cache (or a table a cached backend class has grown) from
+    which some function ANSWERS: a value it returns, or the choice of which value it returns, depends on what the table
+    holds for a key."""
+
+    def __init__(self, cls, name, cache_owned):
+        from .memo import Table
+        self.cls, self.name, self.cache_owned = cls, name, cache_owned
+        self.t = Table(cls.qual, name, "self")
+        self.readers = []      # qualified names of the functions that answer from it
+        self._rx = re.compile(r"\.%s\b" % re.escape(name))
+
+    @property
+    def label(self):
+        return "%s.%s" % (self.cls.name, self.name)
+
+    def mentioned(self, node) -> bool:
+        return any(isinstance(n, ast.Attribute) and n.attr == self.name for n in ast.walk(node))
+
+    def in_text(self, text) -> bool:
+        return bool(self._rx.search(text))
+
+    def in_deps(self, deps) -> bool:
+        return any(d.startswith("attr:") and d.endswith("." + self.name) for d in deps)
+
+
+def _side_answers(fa: FA, tb: _SideTable, reads) -> bool:
+    """does a value `fa` returns -- or which of its returns is taken -- depend on a keyed look-up in the table?"""
+    if not reads:
+        return False
+    for r in fa.returns():
+        if r.value is None or not fa.nodes(r):
+            continue
+        if any(fa.inside(n, r) for (_st, _k, n) in reads):
+            return True
+        try:
+            if tb.in_deps(fa.deps(r.value)):
+                return True
+            conds = fa.conditions(r)
+        except AnalysisError:
+            continue
+        if conds and any(tb.in_text(t_) for c_ in conds for (t_, _p) in c_):
+            return True
+    return False
+
+
+def _side_tables(ck, cm):
+    """The answering side tables: fields of the cache class outside the roles of the cache model (resident map, weak
+    table, recency queue, usage counter, budget, locks), and fields of the cached backend classes that the reference
+    inventory does not know."""
+    from ..inline import new_tables
+    from .memo import _uses
+    repo = ck.repo
+    roles = {cm.map, cm.queue, cm.counter, cm.budget} | ({cm.refs} if cm.refs else set()) | {f for (f, _k) in cm.locks}
+    cands = []
+
+    def stored_fields(cls):
+        out = set(cls.fields)
+        for m in cls.methods.values():
+            for n in ast.walk(m.node):
+                if isinstance(n, ast.Attribute) and isinstance(n.ctx, ast.Store) and isinstance(n.value, ast.Name) and n.value.id in ("self", "cls"):
+                    out.add(n.attr)
+        return out
+
+    for f in sorted(stored_fields(cm.cls) - roles):
+        cands.append(_SideTable(cm.cls, f, True))
+    new = new_tables(repo)
+    base = repo.cls(BACKEND_BASE)
+    for cls in [base] + [c for c in repo.subclasses(base, strict=True)]:
+        for f in sorted(stored_fields(cls)):
+            if "%s:self.%s" % (cls.qual, f) in new or "%s:%s" % (cls.qual, f) in new:
+                cands.append(_SideTable(cls, f, False))
+    out = []
+    for tb in cands:
+        for fi in repo.all_funcs():
+            if fi.parent is not None or fi.node is None or fi.module.name not in _SIDE_MODULES or not tb.mentioned(fi.node):
+                continue
+            fa = FA(ck, fi)
+            reads, _w, _rm = _uses(fa, tb.t)
+            if _side_answers(fa, tb, reads):
+                tb.readers.append(fi.qual)
+        if tb.readers:
+            out.append(tb)
+    return out
+
+
+def _side_excuse(tb: _SideTable):
+    """branch literals under which an event may leave the table alone: the key is not in it; the table does not exist or is
+    empty; there is no cache at all (for a table of the cache); the backend is read-only (nothing was written)"""
+    absent = re.compile(r" in [\w\.]*\b%s$" % re.escape(tb.name))
+    # ... or the table itself does not exist / holds nothing (`T is None`, `not T`, `len(T) == 0`)
+    none = re.compile(r"^[\w\.]*\b%s is None$" % re.escape(tb.name))
+    empty = re.compile(r"^(?:[\w\.]*\b%s|len\([\w\.]*\b%s\)|bool\([\w\.]*\b%s\))$" % ((re.escape(tb.name),) * 3))
+
+    def excuse(t, p):
+        return ((not p) and bool(absent.search(t))) or (p and bool(none.search(t))) or ((not p) and bool(empty.search(t))) \
+            or (tb.cache_owned and _no_cache(t, p)) or (p and t == "self.read_only")
+    return excuse
+
+
+def _side_touch_nodes(ck, cm, fa: FA, tb: _SideTable, tainted, removal_only, allow_sweep, depth, partial=None):
+    """CFG nodes of `fa` that bring the table up to date for the key the event is about: a removal (or, unless
+    `removal_only`, a store) under a key derived from the parameters `tainted`; the table emptied or rebound as a whole;
+    (`allow_sweep`) a loop over the table that removes what it selects; a call of a method of the cache / the backend
+    that does one of these on each of its normal paths, for the arguments it is handed here."""
+    from .memo import _uses
+    _r, w, rm = _uses(fa, tb.t)
+    patoms = {"param:" + p_ for p_ in tainted}
+    out = []
+    for (st, key, node) in rm + ([] if removal_only else w):
+        ids = fa.nodes(node)
+        if not ids or not fa.unconditional(node):
+            continue
+        if key is None:
+            if isinstance(node, ast.Call) and A.call_attr(node) == "clear":
+                out += ids
+            continue
+        swept = False
+        if allow_sweep:
+            # a loop over (a selection from) the table that removes what it visits: the loop as a whole is the removal
+            lp = fa.enclosing(node, (ast.For, ast.While))
+            while lp is not None and not swept:
+                head = lp.iter if isinstance(lp, ast.For) else lp.test
+                try:
+                    over = tb.mentioned(head) or tb.in_deps(fa.deps(head))
+                except AnalysisError:
+                    over = tb.mentioned(head)
+                if over:
+                    out += fa.nodes(lp)
+                    swept = True
+                lp = fa.enclosing(lp, (ast.For, ast.While))
+        if swept:
+            continue
+        try:
+            keyed = bool(set(fa.deps(key)) & patoms)
+        except AnalysisError:
+            keyed = False
+        if keyed:
+            out += ids
+    # the table rebound as a whole: emptied, or rebuilt without what is to go
+    for st in fa.stmts((ast.Assign, ast.AnnAssign)):
+        tg = st.targets if isinstance(st, ast.Assign) else [st.target]
+        if any(isinstance(t_, ast.Attribute) and t_.attr == tb.name for t_ in tg) and getattr(st, "value", None) is not None:
+            out += fa.nodes(st)
+    # `T -= {key}` (a removal) / `T |= {key}` (a store)
+    for st in fa.stmts(ast.AugAssign):
+        if isinstance(st.target, ast.Attribute) and st.target.attr == tb.name and fa.nodes(st) and (isinstance(st.op, ast.Sub) or not removal_only):
+            try:
+                if set(fa.deps(st.value)) & patoms:
+                    out += fa.nodes(st)
+            except AnalysisError:
+                pass
+    if depth > 0:
+        base = ck.repo.cls(BACKEND_BASE)
+        for c in fa.calls():
+            if not fa.nodes(c) or not fa.unconditional(c):
+                continue
+            try:
+                cands, _how = ck.cg.resolve(c, fa.fi)
+            except Exception:  # noqa
+                cands = []
+            cands = [m for m in (cands or []) if m.node is not None and m is not fa.fi and m.cls is not None
+                     and (m.cls is cm.cls or ck.repo.is_subclass(m.cls, base) or m.cls is tb.cls)]
+            if not cands and A.call_attr(c) in cm.cls.methods and _xt(fa, A.call_recv(c), c).endswith("._memory_cache"):
+                cands = [cm.cls.methods[A.call_attr(c)]]
+            if not cands:
+                continue
+            good = True
+            for m in cands:
+                bound = _bind(c, m.params)
+                sub = set()
+                for (pn, a) in bound.items():
+                    try:
+                        if set(fa.deps(a, fa.nodes(c)[0])) & patoms:
+                            sub.add(pn)
+                    except AnalysisError:
+                        pass
+                if not _side_always(ck, cm, m, tb, sub, removal_only, allow_sweep, depth - 1, partial):
+                    good = False
+            if good:
+                out += fa.nodes(c)
+    return out
+
+
+def _side_always(ck, cm, fi, tb, tainted, removal_only, allow_sweep, depth, partial=None) -> bool:
+    """does every way through `fi` to its normal exit bring the table up to date (see _side_touch_nodes)?"""
+    fa = FA(ck, fi)
+    nodes = _side_touch_nodes(ck, cm, fa, tb, tainted, removal_only, allow_sweep, depth, partial)
+    edge_ok = branch_filter(fa, _side_excuse(tb))
+    ok = bool(nodes) and fa.cfg.exit not in fa.cfg.reach([fa.cfg.entry], removed=nodes, edge_ok=edge_ok)
+    if not ok and nodes and partial is not None:
+        partial.append((fa, _bypass_site(fa, nodes, edge_ok)))
+    return ok
+
+
+def check_side_tables(ck, cm: CacheModel, R):
+    """The memory cache is a write-through cache: whatever it holds about a call is what the store holds.  The cache
+    model knows the resident map and the weak table; every OTHER keyed table from which an answer is taken -- a set of
+    calls known to be absent, a second index of values, ... -- is held to the same two clauses:
+
+      refreshed-on-write   every writable way through StorageBackendBase.memoize brings the table up to date for the
+                           memoized call (in memoize itself or in MemoryCache.put, on EACH of its paths -- the early
+                           exits for a value that does not fit included): what the table said about the call before the
+                           write is not what the store holds afterwards;
+      dropped-on-forget    what the write event enters into the table, every forget_* removes (forget_call under the
+                           call's key, forget_function / forget_everything by a sweep or wholesale).
+    """
+    ck.rule(R, "side tables of the cache follow the store: a keyed table from which an answer is taken is brought up to date for the "
+               "call on every path of the write-through, and what the write-through enters there every forget_* removes", 1)
+    tables = _side_tables(ck, cm)
+    base = ck.repo.cls(BACKEND_BASE)
+    memo = FA(ck, BACKEND_BASE + ".memoize")
+    for tb in tables:
+        who = ", ".join(q.split(".", 1)[-1] for q in tb.readers[:2])
+        # refreshed-on-write
+        tainted = {"memento"} & set(memo.fi.params) or {p_ for p_ in memo.fi.params if p_ != "self"}
+        partial = []
+        nodes = _side_touch_nodes(ck, cm, memo, tb, tainted, False, False, 3, partial)
+        edge_ok = branch_filter(memo, _side_excuse(tb))
+        ok = bool(nodes) and memo.cfg.exit not in memo.cfg.reach([memo.cfg.entry], removed=nodes, edge_ok=edge_ok)
+        (wfa, wsite) = partial[-1] if partial else (memo, _bypass_site(memo, nodes, edge_ok))
+        ck.ob(R, wfa.key(None, "refreshed-on-write:" + tb.label), ok,
+              "memoize brings %s up to date for the memoized call on every writable path" % tb.label if ok else
+              "%s can finish (`%s`) without bringing %s up to date for the call that is being memoized, while %s answers from that table: "
+              "what the table said about the call before the write (not stored / an earlier value) is still the answer after it, so reads do "
+              "not return the last value written" % (wfa.qual.split(".", 1)[-1], A.short(wsite, 40) if wsite is not None else "end of body", tb.label, who),
+              wfa.where(wsite))
+        # dropped-on-forget: only for what the write event enters
+        from .memo import _uses
+        chain = [memo.fi, cm.insert] + [m for m in cm.cls.methods.values() if any(cm.is_self_call(c, m) for c in A.body_calls(cm.insert.node))]
+        positive = any(_uses(FA(ck, fi), tb.t)[1] for fi in chain if tb.mentioned(fi.node))
+        if not positive:
+            continue
+        for name in ("forget_call", "forget_function", "forget_everything"):
+            m = ck.repo.find_method(tb.cls if not tb.cache_owned else base, name) or base.methods.get(name)
+            fa = FA(ck, m)
+            tainted = {p_ for p_ in fa.fi.params if p_ != "self"}
+            partial = []
+            sweep = name != "forget_call"
+            nodes = _side_touch_nodes(ck, cm, fa, tb, tainted, True, sweep, 3, partial)
+            edge_ok = branch_filter(fa, _side_excuse(tb))
+            ok = bool(nodes) and fa.cfg.exit not in fa.cfg.reach([fa.cfg.entry], removed=nodes, edge_ok=edge_ok)
+            if not ok and not partial and tb.cache_owned and name in cm.cls.methods:
+                partial.append((FA(ck, cm.cls.methods[name]), None))
+            (wfa, wsite) = partial[-1] if partial else (fa, _bypass_site(fa, nodes, edge_ok))
+            ck.ob(R, wfa.key(None, "dropped-on-forget:" + tb.label), ok,
+                  "%s removes what the write-through entered into %s" % (name, tb.label) if ok else
+                  "%s can finish without removing from %s what the write-through entered there for the forgotten scope, while %s answers from "
+                  "that table: something forgotten is answered again" % (wfa.qual.split(".", 1)[-1], tb.label, who), wfa.where(wsite))
+    ck.ob(R, "side-tables::scan", True, "answering side tables of the cache / the cached backends: %s" % ([t.label for t in tables] or "none"), "")
+
+
+
 def check(ck):
     from .memo import check_new_memo_tables
     ck.run(check_metadata_marker_reserved, ck, "C05.R4")
@@ -2322,4 +2861,5 @@ def check(ck):
     ck.run(check_cache_reads_own_key, ck, cm, "C05.R4")
     ck.run(check_queries_effect_free, ck, "C05.R3")
     ck.run(check_cache_coherence, ck, cm)
+    ck.run(check_side_tables, ck, cm, "C05.R9")
     ck.run(check_path_scheme, ck)
